@@ -16,7 +16,7 @@ import (
 // the strings that are printed), printed by the printers below (which coq/M_LegacyDoc.v mirrors
 // byte for byte), and parsed by the real profile.ParseData.
 
-func init() { registry["C14"] = runC14 }
+func init() { registry["C14"] = c14Run }
 
 // ---------------------------------------------------------------- observation
 
@@ -62,8 +62,8 @@ func c14ProtoOK(data []byte) (ok bool) {
 
 // ---------------------------------------------------------------- math.Exp oracle (math/big)
 
-// bigExp computes exp(x) for x >= 0 with ~200 bits by argument halving and a Taylor series.
-func bigExp(x *big.Float) *big.Float {
+// c14BigExp computes exp(x) for x >= 0 with ~200 bits by argument halving and a Taylor series.
+func c14BigExp(x *big.Float) *big.Float {
 	const prec = 256
 	k := 0
 	y := new(big.Float).SetPrec(prec).Set(x)
@@ -85,13 +85,13 @@ func bigExp(x *big.Float) *big.Float {
 	return sum
 }
 
-// unsampleOracle returns trunc(count*scale), trunc(size*scale), scale = 1/(1-exp(-(size/count)/rate)).
-func unsampleOracle(count, size, rate int64) (int64, int64) {
+// c14UnsampleOracle returns trunc(count*scale), trunc(size*scale), scale = 1/(1-exp(-(size/count)/rate)).
+func c14UnsampleOracle(count, size, rate int64) (int64, int64) {
 	const prec = 256
 	f := func(v int64) *big.Float { return new(big.Float).SetPrec(prec).SetInt64(v) }
 	avg := new(big.Float).SetPrec(prec).Quo(f(size), f(count))
 	x := new(big.Float).SetPrec(prec).Quo(avg, f(rate)) // > 0 in the generated domain
-	e := bigExp(x)
+	e := c14BigExp(x)
 	inv := new(big.Float).SetPrec(prec).Quo(f(1), e)     // exp(-x)
 	den := new(big.Float).SetPrec(prec).Sub(f(1), inv)   // 1 - exp(-x)
 	scale := new(big.Float).SetPrec(prec).Quo(f(1), den) // 1/(1-exp(-x))
@@ -102,16 +102,16 @@ func unsampleOracle(count, size, rate int64) (int64, int64) {
 
 // ---------------------------------------------------------------- documents
 
-type dmapT struct {
+type c14DmapT struct {
 	kind                                                          int
 	start, limit, perm, offset, dev, inode, file, buildid string
 }
 
-func (e dmapT) term() Term {
+func (e c14DmapT) term() Term {
 	return L(ZI(e.kind), S(e.start), S(e.limit), S(e.perm), S(e.offset), S(e.dev), S(e.inode), S(e.file), S(e.buildid))
 }
 
-func (e dmapT) print() string {
+func (e c14DmapT) print() string {
 	switch e.kind {
 	case 0:
 		s := e.start + "-" + e.limit + " " + e.perm + " " + e.offset + " " + e.dev + " " + e.inode
@@ -132,13 +132,13 @@ func (e dmapT) print() string {
 	return "  " + e.start + "-" + e.limit + ": " + e.file
 }
 
-type mapsecT struct {
+type c14MapsecT struct {
 	present  bool
 	sentinel int
-	entries  []dmapT
+	entries  []c14DmapT
 }
 
-func (m mapsecT) term() Term {
+func (m c14MapsecT) term() Term {
 	var es []Term
 	for _, e := range m.entries {
 		es = append(es, e.term())
@@ -146,7 +146,7 @@ func (m mapsecT) term() Term {
 	return L(Bool(m.present), ZI(m.sentinel), L(es...))
 }
 
-func (m mapsecT) lines() []string {
+func (m c14MapsecT) lines() []string {
 	if !m.present {
 		return nil
 	}
@@ -160,29 +160,29 @@ func (m mapsecT) lines() []string {
 	return ls
 }
 
-func hx(v uint64) string { return strconv.FormatUint(v, 16) }
+func c14Hx(v uint64) string { return strconv.FormatUint(v, 16) }
 
 var c14Files = []string{"/bin/main", "/usr/lib/libc-2.15.so", "/lib/libm.so.6", "[vdso]", "/opt/app(deleted)", "/anon_hugepage(deleted)",
 	"/home/u/server_main", "libfoo.so_1", "/lib/ld.so", "", "abc"}
 
-// genMaps builds a memory-map section aimed at the case splits of massageMappings/remapMappingIDs:
+// c14GenMaps builds a memory-map section aimed at the case splits of massageMappings/remapMappingIDs:
 // adjacent pieces (merged), a main binary behind libraries (swapped to the front), start-offset ==
 // 0x400000, a mapping whose first part is missing (start -= offset), /anon_hugepage, non-executable
 // entries, and addresses covered by nothing (catch-all mapping).
-func genMaps(r *Rng, allowSentinel1 bool) mapsecT {
-	m := mapsecT{present: r.P(3, 4)}
+func c14GenMaps(r *Rng, allowSentinel1 bool) c14MapsecT {
+	m := c14MapsecT{present: r.P(3, 4)}
 	if !m.present {
 		return m
 	}
 	if allowSentinel1 && r.P(1, 4) {
 		m.sentinel = 1
 	}
-	m.entries = genMapEntries(r)
+	m.entries = c14GenMapEntries(r)
 	return m
 }
 
-func genMapEntries(r *Rng) []dmapT {
-	var es []dmapT
+func c14GenMapEntries(r *Rng) []c14DmapT {
+	var es []c14DmapT
 	n := r.Intn(5)
 	base := []uint64{0x400000, 0x401000, 0x600000, 0x7f0000000000, 0x10000, 0x500000}[r.Intn(6)]
 	cur := base
@@ -191,14 +191,14 @@ func genMapEntries(r *Rng) []dmapT {
 		if !r.P(1, 2) { // gap: not adjacent
 			cur += uint64(r.Intn(3)) * 0x1000
 		}
-		e := dmapT{kind: r.Intn(3), start: hx(cur), limit: hx(cur + size), perm: PickS(r, []string{"r-xp", "r-xp", "rwxp", "rw-p", "r--p", "---p", "x"}),
-			offset: hx(uint64(r.Intn(3)) * 0x1000), dev: PickS(r, []string{"fc:01", "00:00", "08:1f"}), inode: strconv.Itoa(r.Intn(100000)),
+		e := c14DmapT{kind: r.Intn(3), start: c14Hx(cur), limit: c14Hx(cur + size), perm: PickS(r, []string{"r-xp", "r-xp", "rwxp", "rw-p", "r--p", "---p", "x"}),
+			offset: c14Hx(uint64(r.Intn(3)) * 0x1000), dev: PickS(r, []string{"fc:01", "00:00", "08:1f"}), inode: strconv.Itoa(r.Intn(100000)),
 			file: PickS(r, c14Files)}
 		if r.P(1, 6) {
 			e.start = "00" + e.start
 		}
 		if r.P(1, 8) { // start - offset == 0x400000
-			e.start, e.limit, e.offset = hx(0x400000+0x2000), hx(0x400000+0x2000+size), hx(0x2000)
+			e.start, e.limit, e.offset = c14Hx(0x400000+0x2000), c14Hx(0x400000+0x2000+size), c14Hx(0x2000)
 			cur = 0x400000 + 0x2000
 		}
 		switch e.kind {
@@ -227,7 +227,7 @@ func genMapEntries(r *Rng) []dmapT {
 
 // address pool: shared addresses (ties in the location table), 0 and 1 (wrap to 2^64-1 / to the
 // nil-mapping address 0), adjacent pairs (duplicate-leaf clean-up), addresses inside/outside maps
-func genAddr(r *Rng) uint64 {
+func c14GenAddr(r *Rng) uint64 {
 	switch r.Intn(10) {
 	case 0:
 		return []uint64{0, 1, 2, ^uint64(0), 1 << 63, 0xffffffff}[r.Intn(6)]
@@ -242,16 +242,16 @@ func genAddr(r *Rng) uint64 {
 	}
 }
 
-func genHexes(r *Rng, minN, maxN int) []string {
+func c14GenHexes(r *Rng, minN, maxN int) []string {
 	n := minN + r.Intn(maxN-minN+1)
 	var hs []string
 	for i := 0; i < n; i++ {
-		a := genAddr(r)
+		a := c14GenAddr(r)
 		if i > 0 && r.P(1, 5) { // previous address - 1, + 1 or equal
 			p, _ := strconv.ParseUint(hs[i-1], 16, 64)
 			a = p + uint64(r.Intn(3)) - 1
 		}
-		h := hx(a)
+		h := c14Hx(a)
 		if r.P(1, 10) {
 			h = "00" + h
 		}
@@ -263,7 +263,7 @@ func genHexes(r *Rng, minN, maxN int) []string {
 	return hs
 }
 
-func hexesStr(hs []string) string {
+func c14HexesStr(hs []string) string {
 	var sb strings.Builder
 	for _, h := range hs {
 		sb.WriteString(" 0x" + h)
@@ -271,7 +271,7 @@ func hexesStr(hs []string) string {
 	return sb.String()
 }
 
-func genCount(r *Rng) string {
+func c14GenCount(r *Rng) string {
 	switch r.Intn(8) {
 	case 0:
 		return "0"
@@ -282,11 +282,11 @@ func genCount(r *Rng) string {
 	}
 }
 
-func genSkipLine(r *Rng) string {
+func c14GenSkipLine(r *Rng) string {
 	return PickS(r, []string{"", "  ", "# comment", "#", "  # heap profile: 1: 2 [3: 4] @ heap/5", "\t", "# 1 @ 0x1", "#--- x"})
 }
 
-func joinLines(ls []string) string {
+func c14JoinLines(ls []string) string {
 	var sb strings.Builder
 	for _, l := range ls {
 		sb.WriteString(l)
@@ -296,35 +296,35 @@ func joinLines(ls []string) string {
 }
 
 // ---- Go count
-type citemT struct {
+type c14CitemT struct {
 	skip  bool
 	count string
 	addrs []string
 	line  string
 }
-type cdocT struct {
+type c14CdocT struct {
 	pre         []string
 	typ, total  string
-	items       []citemT
-	m           mapsecT
+	items       []c14CitemT
+	m           c14MapsecT
 }
 
-func genCDoc(r *Rng) cdocT {
-	d := cdocT{typ: PickS(r, []string{"goroutine", "threadcreate", "x", "heap"}), total: strconv.Itoa(r.Intn(100))}
+func c14GenCDoc(r *Rng) c14CdocT {
+	d := c14CdocT{typ: PickS(r, []string{"goroutine", "threadcreate", "x", "heap"}), total: strconv.Itoa(r.Intn(100))}
 	for i := r.Intn(3); i > 0; i-- {
 		d.pre = append(d.pre, PickS(r, []string{"", "# c", "  ", "#"}))
 	}
 	for i := r.Intn(6); i > 0; i-- {
 		if r.P(1, 5) {
-			d.items = append(d.items, citemT{skip: true, line: genSkipLine(r)})
+			d.items = append(d.items, c14CitemT{skip: true, line: c14GenSkipLine(r)})
 		} else {
-			d.items = append(d.items, citemT{count: genCount(r), addrs: genHexes(r, 1, 5)})
+			d.items = append(d.items, c14CitemT{count: c14GenCount(r), addrs: c14GenHexes(r, 1, 5)})
 		}
 	}
-	d.m = genMaps(r, false)
+	d.m = c14GenMaps(r, false)
 	return d
 }
-func (d cdocT) term() Term {
+func (d c14CdocT) term() Term {
 	var its []Term
 	for _, i := range d.items {
 		if i.skip {
@@ -335,39 +335,39 @@ func (d cdocT) term() Term {
 	}
 	return L(Ss(d.pre), S(d.typ), S(d.total), L(its...), d.m.term())
 }
-func (d cdocT) lines() []string {
+func (d c14CdocT) lines() []string {
 	ls := append([]string{}, d.pre...)
 	ls = append(ls, d.typ+" profile: total "+d.total)
 	for _, i := range d.items {
 		if i.skip {
 			ls = append(ls, i.line)
 		} else {
-			ls = append(ls, i.count+" @"+hexesStr(i.addrs))
+			ls = append(ls, i.count+" @"+c14HexesStr(i.addrs))
 		}
 	}
 	return append(ls, d.m.lines()...)
 }
 
 // ---- heap
-type hitemT struct {
+type c14HitemT struct {
 	skip            bool
 	c, s, ac, as    string
 	addrs           []string
 	line            string
 }
-type hdocT struct {
+type c14HdocT struct {
 	name           string
 	h              [4]string
 	rate           string
-	items          []hitemT
-	m              mapsecT
+	items          []c14HitemT
+	m              c14MapsecT
 	lead           string
 	approx         bool
 	oracle         []Term
 }
 
-func genHDoc(r *Rng) hdocT {
-	d := hdocT{name: PickS(r, []string{"heap", "heap", "heap_v2", "heapz_v2", "heapprofile", "growthz", "growth", "fragmentationz", "fragmentation"})}
+func c14GenHDoc(r *Rng) c14HdocT {
+	d := c14HdocT{name: PickS(r, []string{"heap", "heap", "heap_v2", "heapz_v2", "heapprofile", "growthz", "growth", "fragmentationz", "fragmentation"})}
 	d.h = [4]string{strconv.Itoa(r.Intn(200)), strconv.Itoa(r.Intn(90000)), "", ""}
 	switch r.Intn(4) {
 	case 0:
@@ -381,15 +381,27 @@ func genHDoc(r *Rng) hdocT {
 	}
 	rate := int64(0)
 	if strings.HasPrefix(d.name, "heap") {
-		switch r.Intn(6) {
+		// rates around the "rate <= 1 => raw values" guard of scaleHeapSample: no rate (0), 1, 2 and 3 (effective
+		// rate 1 for "heap", whose rate is halved; 2 and 3 for heap_v2), 4/5 (effective 2 for "heap"), small, 524288
+		switch r.Intn(8) {
 		case 0:
 			d.rate = ""
 		case 1:
 			d.rate, rate = "1", 1
 		case 2:
+			d.rate, rate = "2", 2
+		case 3:
 			d.rate, rate = "3", 3
+		case 4:
+			rate = PickI(r, []int64{4, 5, 6, 16})
+			d.rate = strconv.FormatInt(rate, 10)
+		case 5:
+			rate = PickI(r, []int64{512, 1024, 2048})
+			d.rate = strconv.FormatInt(rate, 10)
+		case 6:
+			d.rate, rate = "524288", 524288
 		default:
-			rate = PickI(r, []int64{2, 4, 512, 4096, 524288, 1048576, 100000})
+			rate = PickI(r, []int64{4096, 1048576, 100000})
 			d.rate = strconv.FormatInt(rate, 10)
 		}
 	}
@@ -410,7 +422,12 @@ func genHDoc(r *Rng) hdocT {
 		}
 		c := int64(1 + r.Intn(50))
 		avg := int64(1 + r.Intn(4096))
-		if v2 && period > 1 {
+		if !(v2 && period > 1024) && r.P(1, 3) {
+			// tiny blocks, counts up to the thousands: 1/(1-exp(-avg/rate)) is far from 1 when rate is 1 or 2
+			// (1.58 for 1-byte blocks, 1.000335 for 8-byte blocks at rate 1), so a wrong guard shows in the values
+			avg = PickI(r, []int64{1, 1, 2, 3, 8})
+			c = PickI(r, []int64{1, 2, 7, 3000, 5000, 40000})
+		} else if v2 && period > 1 {
 			// keep (size/count)/rate >= 2^-10 so that 1-exp(-x) does not cancel in float64
 			lo := period/1024 + 1
 			avg = lo + int64(r.Intn(int(4*period)))
@@ -424,7 +441,7 @@ func genHDoc(r *Rng) hdocT {
 		}
 		if v2 && period > 1 && s != 0 && !seen[[2]int64{c, s}] {
 			seen[[2]int64{c, s}] = true
-			oc, os := unsampleOracle(c, s, period)
+			oc, os := c14UnsampleOracle(c, s, period)
 			d.oracle = append(d.oracle, L(Z(c), Z(s), Z(period), Z(oc), Z(os)))
 			d.approx = true
 			if neg {
@@ -441,10 +458,10 @@ func genHDoc(r *Rng) hdocT {
 	}
 	for i := r.Intn(6); i > 0; i-- {
 		if r.P(1, 6) {
-			d.items = append(d.items, hitemT{skip: true, line: PickS(r, []string{"", "  ", "# c", "#", "\t# 1: 2 [3: 4] @ 0x1"})})
+			d.items = append(d.items, c14HitemT{skip: true, line: PickS(r, []string{"", "  ", "# c", "#", "\t# 1: 2 [3: 4] @ 0x1"})})
 			continue
 		}
-		it := hitemT{addrs: genHexes(r, 0, 5)}
+		it := c14HitemT{addrs: c14GenHexes(r, 0, 5)}
 		it.c, it.s = pair(r.P(1, 10))
 		it.ac, it.as = pair(false)
 		if !hasAlloc && r.P(1, 2) {
@@ -455,10 +472,10 @@ func genHDoc(r *Rng) hdocT {
 		}
 		d.items = append(d.items, it)
 	}
-	d.m = genMaps(r, true)
+	d.m = c14GenMaps(r, true)
 	return d
 }
-func (d hdocT) term() Term {
+func (d c14HdocT) term() Term {
 	var its []Term
 	for _, i := range d.items {
 		if i.skip {
@@ -469,14 +486,14 @@ func (d hdocT) term() Term {
 	}
 	return L(S(d.name), Ss(d.h[:]), S(d.rate), L(its...), d.m.term(), S(d.lead))
 }
-func (d hdocT) header() string {
+func (d c14HdocT) header() string {
 	s := "heap profile: " + d.h[0] + ": " + d.h[1] + " [" + d.h[2] + ": " + d.h[3] + "] @ " + d.name
 	if d.rate != "" {
 		s += "/" + d.rate
 	}
 	return s
 }
-func (d hdocT) lines(style int) []string {
+func (d c14HdocT) lines(style int) []string {
 	ls := []string{d.header()}
 	if style == 1 {
 		ls[0] = fmt.Sprintf("heap profile: %6s: %8s [%6s: %8s] @ %s", d.h[0], d.h[1], d.h[2], d.h[3], d.name)
@@ -489,36 +506,36 @@ func (d hdocT) lines(style int) []string {
 		case i.skip:
 			ls = append(ls, i.line)
 		case style == 1:
-			ls = append(ls, fmt.Sprintf("%6s: %8s [%6s: %8s] @%s", i.c, i.s, i.ac, i.as, hexesStr(i.addrs)))
+			ls = append(ls, fmt.Sprintf("%6s: %8s [%6s: %8s] @%s", i.c, i.s, i.ac, i.as, c14HexesStr(i.addrs)))
 			if len(ls)%3 == 0 {
 				ls = append(ls, "# interleaved comment")
 			}
 		case style == 2:
-			ls = append(ls, "\t"+i.c+":"+i.s+"["+i.ac+":"+i.as+"] @"+hexesStr(i.addrs)+"  ")
+			ls = append(ls, "\t"+i.c+":"+i.s+"["+i.ac+":"+i.as+"] @"+c14HexesStr(i.addrs)+"  ")
 		default:
-			ls = append(ls, d.lead+i.c+": "+i.s+" ["+i.ac+": "+i.as+"] @"+hexesStr(i.addrs))
+			ls = append(ls, d.lead+i.c+": "+i.s+" ["+i.ac+": "+i.as+"] @"+c14HexesStr(i.addrs))
 		}
 	}
 	return append(ls, d.m.lines()...)
 }
 
 // ---- contention
-type kitemT struct {
+type c14KitemT struct {
 	skip          bool
 	delay, count  string
 	addrs         []string
 	line          string
 }
-type kdocT struct {
+type c14KdocT struct {
 	header string
 	attrs  [][2]string
-	items  []kitemT
-	m      mapsecT
+	items  []c14KitemT
+	m      c14MapsecT
 	approx bool
 }
 
-func genKDoc(r *Rng) kdocT {
-	d := kdocT{header: PickS(r, []string{"--- contentionz 1 ---", "--- mutex:", "--- contention:", "--- contentionz 7 ---", "--- mutex: x"})}
+func c14GenKDoc(r *Rng) c14KdocT {
+	d := c14KdocT{header: PickS(r, []string{"--- contentionz 1 ---", "--- mutex:", "--- contention:", "--- contentionz 7 ---", "--- mutex: x"})}
 	hz, period := int64(0), int64(1)
 	for i := r.Intn(5); i > 0; i-- {
 		switch r.Intn(4) {
@@ -537,19 +554,19 @@ func genKDoc(r *Rng) kdocT {
 	d.approx = hz > 0 && period > 0
 	for i := r.Intn(6); i > 0; i-- {
 		if r.P(1, 6) {
-			d.items = append(d.items, kitemT{skip: true, line: PickS(r, []string{"", "  ", "# c", "#1 2 @ 0x3"})})
+			d.items = append(d.items, c14KitemT{skip: true, line: PickS(r, []string{"", "  ", "# c", "#1 2 @ 0x3"})})
 			continue
 		}
-		it := kitemT{delay: strconv.Itoa(r.Intn(100000)), count: genCount(r), addrs: genHexes(r, 0, 5)}
+		it := c14KitemT{delay: strconv.Itoa(r.Intn(100000)), count: c14GenCount(r), addrs: c14GenHexes(r, 0, 5)}
 		if it.count == "9223372036854775807" && period > 1 {
 			it.count = "4611686018427387904" // wraps when multiplied by the period
 		}
 		d.items = append(d.items, it)
 	}
-	d.m = genMaps(r, false)
+	d.m = c14GenMaps(r, false)
 	return d
 }
-func (d kdocT) term() Term {
+func (d c14KdocT) term() Term {
 	var as, its []Term
 	for _, a := range d.attrs {
 		as = append(as, L(S(a[0]), S(a[1])))
@@ -563,7 +580,7 @@ func (d kdocT) term() Term {
 	}
 	return L(S(d.header), L(as...), L(its...), d.m.term())
 }
-func (d kdocT) lines(style int) []string {
+func (d c14KdocT) lines(style int) []string {
 	ls := []string{d.header}
 	for _, a := range d.attrs {
 		if style == 1 {
@@ -577,32 +594,32 @@ func (d kdocT) lines(style int) []string {
 		case i.skip:
 			ls = append(ls, i.line)
 		case style == 1:
-			ls = append(ls, fmt.Sprintf("%10s %8s @%s", i.delay, i.count, hexesStr(i.addrs)))
+			ls = append(ls, fmt.Sprintf("%10s %8s @%s", i.delay, i.count, c14HexesStr(i.addrs)))
 		default:
-			ls = append(ls, i.delay+" "+i.count+" @"+hexesStr(i.addrs))
+			ls = append(ls, i.delay+" "+i.count+" @"+c14HexesStr(i.addrs))
 		}
 	}
 	return append(ls, d.m.lines()...)
 }
 
 // ---- threadz
-type tblockT struct {
+type c14TblockT struct {
 	id, name, tid string
 	same          bool
 	lines         [][]string
 }
-type tdocT struct {
+type c14TdocT struct {
 	pre      []string
 	threadz  bool
 	num      string
 	junk     []string
-	blocks   []tblockT
+	blocks   []c14TblockT
 	nostack  bool
-	m        mapsecT
+	m        c14MapsecT
 }
 
-func genTDoc(r *Rng) tdocT {
-	d := tdocT{threadz: r.P(2, 3), num: strconv.Itoa(r.Intn(3))}
+func c14GenTDoc(r *Rng) c14TdocT {
+	d := c14TdocT{threadz: r.P(2, 3), num: strconv.Itoa(r.Intn(3))}
 	for i := r.Intn(3); i > 0; i-- {
 		d.pre = append(d.pre, PickS(r, []string{"", "# c", "  "}))
 	}
@@ -616,23 +633,23 @@ func genTDoc(r *Rng) tdocT {
 		nb = 1
 	}
 	for i := 0; i < nb; i++ {
-		b := tblockT{id: hx(0x7f794ab90940 + uint64(i)*0x1000), name: PickS(r, []string{"main", "thread1", "a/b", "", "x (y)"}), tid: strconv.Itoa(14748 + i)}
+		b := c14TblockT{id: c14Hx(0x7f794ab90940 + uint64(i)*0x1000), name: PickS(r, []string{"main", "thread1", "a/b", "", "x (y)"}), tid: strconv.Itoa(14748 + i)}
 		switch {
 		case r.P(1, 4):
 			b.same = true
 		default:
 			for j := r.Intn(4); j > 0; j-- {
-				b.lines = append(b.lines, genHexes(r, 1, 3))
+				b.lines = append(b.lines, c14GenHexes(r, 1, 3))
 			}
 		}
 		d.blocks = append(d.blocks, b)
 	}
 	d.nostack = r.P(1, 6)
-	d.m = genMaps(r, false)
+	d.m = c14GenMaps(r, false)
 	d.m.present = true // without the sentinel the parser rejects the whole input (see DESIGN C14)
 	return d
 }
-func (d tdocT) term() Term {
+func (d c14TdocT) term() Term {
 	tz := L()
 	if d.threadz {
 		tz = L(S(d.num), Ss(d.junk))
@@ -647,7 +664,7 @@ func (d tdocT) term() Term {
 	}
 	return L(Ss(d.pre), tz, L(bs...), Bool(d.nostack), d.m.term())
 }
-func (d tdocT) lines(style int) []string {
+func (d c14TdocT) lines(style int) []string {
 	ls := append([]string{}, d.pre...)
 	if d.threadz {
 		ls = append(ls, "--- threadz "+d.num+" ---")
@@ -669,7 +686,7 @@ func (d tdocT) lines(style int) []string {
 					}
 				}
 			} else {
-				ls = append(ls, " "+hexesStr(l))
+				ls = append(ls, " "+c14HexesStr(l))
 			}
 		}
 	}
@@ -680,20 +697,20 @@ func (d tdocT) lines(style int) []string {
 }
 
 // ---- binary CPU
-type psampleT struct {
+type c14PsampleT struct {
 	count uint64
 	addrs []uint64
 }
-type pdocT struct {
+type c14PdocT struct {
 	kind    int
 	period  uint64
-	samples []psampleT
+	samples []c14PsampleT
 	eod     bool
-	maps    []dmapT
+	maps    []c14DmapT
 }
 
-func genPDoc(r *Rng, big bool) pdocT {
-	d := pdocT{kind: r.Intn(4), period: uint64(PickI(r, []int64{1, 10000, 100, 4294967295, 1000})), eod: r.P(4, 5)}
+func c14GenPDoc(r *Rng, big bool) c14PdocT {
+	d := c14PdocT{kind: r.Intn(4), period: uint64(PickI(r, []int64{1, 10000, 100, 4294967295, 1000})), eod: r.P(4, 5)}
 	n := r.Intn(6)
 	if big {
 		n = 30 + r.Intn(12) // len/32 margin >= 1
@@ -704,7 +721,7 @@ func genPDoc(r *Rng, big bool) pdocT {
 	// number of samples WITHOUT the shared second frame: around both sides of len/32 (and len/16, len/64)
 	nonShare := []int{0, n / 32, n/32 + 1, n / 16, n/16 + 1, n / 64}[r.Intn(6)]
 	for i := 0; i < n; i++ {
-		s := psampleT{count: uint64(r.Intn(20))}
+		s := c14PsampleT{count: uint64(r.Intn(20))}
 		if r.P(1, 10) {
 			s.count = uint64(PickI(r, []int64{0, 4294967295, 1 << 31}))
 		}
@@ -713,7 +730,7 @@ func genPDoc(r *Rng, big bool) pdocT {
 			m = 1 + r.Intn(4) // every sample can carry the shared frame: the count is controlled by nonShare alone
 		}
 		for j := 0; j < m; j++ {
-			a := genAddr(r)
+			a := c14GenAddr(r)
 			if d.kind < 2 {
 				a &= 0xffffffff
 			}
@@ -739,11 +756,11 @@ func genPDoc(r *Rng, big bool) pdocT {
 		d.samples = append(d.samples, s)
 	}
 	if d.eod {
-		d.maps = genMapEntries(r)
+		d.maps = c14GenMapEntries(r)
 	}
 	return d
 }
-func (d pdocT) term() Term {
+func (d c14PdocT) term() Term {
 	var ss, ms []Term
 	for _, s := range d.samples {
 		var as []Term
@@ -757,7 +774,7 @@ func (d pdocT) term() Term {
 	}
 	return L(ZI(d.kind), ZU(d.period), L(ss...), Bool(d.eod), L(ms...))
 }
-func putWord(b []byte, kind int, w uint64) []byte {
+func c14PutWord(b []byte, kind int, w uint64) []byte {
 	switch kind {
 	case 0:
 		return binary.LittleEndian.AppendUint32(b, uint32(w))
@@ -768,21 +785,21 @@ func putWord(b []byte, kind int, w uint64) []byte {
 	}
 	return binary.BigEndian.AppendUint64(b, w)
 }
-func (d pdocT) bytes() []byte {
+func (d c14PdocT) bytes() []byte {
 	var b []byte
 	for _, w := range []uint64{0, 3, 0, d.period, 0} {
-		b = putWord(b, d.kind, w)
+		b = c14PutWord(b, d.kind, w)
 	}
 	for _, s := range d.samples {
-		b = putWord(b, d.kind, s.count)
-		b = putWord(b, d.kind, uint64(len(s.addrs)))
+		b = c14PutWord(b, d.kind, s.count)
+		b = c14PutWord(b, d.kind, uint64(len(s.addrs)))
 		for _, a := range s.addrs {
-			b = putWord(b, d.kind, a)
+			b = c14PutWord(b, d.kind, a)
 		}
 	}
 	if d.eod {
 		for _, w := range []uint64{0, 1, 0} {
-			b = putWord(b, d.kind, w)
+			b = c14PutWord(b, d.kind, w)
 		}
 		for _, e := range d.maps {
 			b = append(b, e.print()...)
@@ -794,9 +811,9 @@ func (d pdocT) bytes() []byte {
 
 // ---------------------------------------------------------------- mutations
 
-var mutTokens = []string{" ", "0", "x", "-", ":", "@", "[", "]", "#", "\n", "=", "a", "/", "0x", "--- ", "f", "9", "\r", "(", ")", "heap", " @ "}
+var c14MutTokens = []string{" ", "0", "x", "-", ":", "@", "[", "]", "#", "\n", "=", "a", "/", "0x", "--- ", "f", "9", "\r", "(", ")", "heap", " @ "}
 
-func mutate(r *Rng, data []byte) []byte {
+func c14Mutate(r *Rng, data []byte) []byte {
 	b := append([]byte{}, data...)
 	for k := 1 + r.Intn(2); k > 0; k-- {
 		if len(b) == 0 {
@@ -807,10 +824,10 @@ func mutate(r *Rng, data []byte) []byte {
 		case 0: // delete a byte
 			b = append(b[:pos], b[pos+1:]...)
 		case 1: // insert a token
-			t := PickS(r, mutTokens)
+			t := PickS(r, c14MutTokens)
 			b = append(b[:pos], append([]byte(t), b[pos:]...)...)
 		case 2: // replace a byte
-			t := PickS(r, mutTokens)
+			t := PickS(r, c14MutTokens)
 			b[pos] = t[0]
 		case 3: // truncate
 			b = b[:pos]
@@ -829,7 +846,7 @@ func mutate(r *Rng, data []byte) []byte {
 	return b
 }
 
-func asciiOnly(b []byte) bool {
+func c14AsciiOnly(b []byte) bool {
 	for _, c := range b {
 		if c >= 0x80 {
 			return false
@@ -840,7 +857,7 @@ func asciiOnly(b []byte) bool {
 
 // ---------------------------------------------------------------- driver
 
-func runC14(c *Ctx) {
+func c14Run(c *Ctx) {
 	emit := func(gen, kind, fmtName string, doc Term, data []byte, oracle []Term, approx bool, nt bool, tags ...string) {
 		flags := L(Bool(c14ProtoOK(data)), Bool(approx))
 		in := L(S(kind), S(fmtName), doc, S(string(data)), L(oracle...), flags)
@@ -857,8 +874,8 @@ func runC14(c *Ctx) {
 	for k := 0; k < n; k++ {
 		// Go count
 		{
-			d := genCDoc(c.R)
-			data := []byte(joinLines(d.lines()))
+			d := c14GenCDoc(c.R)
+			data := []byte(c14JoinLines(d.lines()))
 			nt := len(d.items) > 0
 			emit("count-doc", "doc", "count", d.term(), data, nil, false, nt)
 			switch c.R.Intn(3) {
@@ -868,58 +885,58 @@ func runC14(c *Ctx) {
 				emit("count-var", "var", "count", d.term(), data[:len(data)-1], nil, false, nt, "var:no-final-newline")
 			}
 			for q := nMut(); q > 0; q-- {
-				emit("count-mut", "mut", "count", L(), mutate(c.R, data), nil, false, true)
+				emit("count-mut", "mut", "count", L(), c14Mutate(c.R, data), nil, false, true)
 			}
 		}
 		// heap
 		{
-			d := genHDoc(c.R)
-			data := []byte(joinLines(d.lines(0)))
+			d := c14GenHDoc(c.R)
+			data := []byte(c14JoinLines(d.lines(0)))
 			nt := len(d.items) > 0
 			emit("heap-doc", "doc", "heap", d.term(), data, d.oracle, d.approx, nt, "heap:"+d.name)
 			st := 1 + c.R.Intn(2)
-			emit("heap-var", "var", "heap", d.term(), []byte(joinLines(d.lines(st))), d.oracle, d.approx, nt, fmt.Sprintf("var:style%d", st))
+			emit("heap-var", "var", "heap", d.term(), []byte(c14JoinLines(d.lines(st))), d.oracle, d.approx, nt, fmt.Sprintf("var:style%d", st))
 			if c.R.P(1, 3) {
 				emit("heap-var", "var", "heap", d.term(), crlf(string(data)), d.oracle, d.approx, nt, "var:crlf")
 			}
 			for q := nMut(); q > 0; q-- {
-				emit("heap-mut", "mut", "heap", L(), mutate(c.R, data), d.oracle, d.approx, true)
+				emit("heap-mut", "mut", "heap", L(), c14Mutate(c.R, data), d.oracle, d.approx, true)
 			}
 		}
 		// contention
 		{
-			d := genKDoc(c.R)
-			data := []byte(joinLines(d.lines(0)))
+			d := c14GenKDoc(c.R)
+			data := []byte(c14JoinLines(d.lines(0)))
 			nt := len(d.items) > 0
 			emit("contention-doc", "doc", "contention", d.term(), data, nil, d.approx, nt)
 			if c.R.P(1, 2) {
-				emit("contention-var", "var", "contention", d.term(), []byte(joinLines(d.lines(1))), nil, d.approx, nt, "var:style1")
+				emit("contention-var", "var", "contention", d.term(), []byte(c14JoinLines(d.lines(1))), nil, d.approx, nt, "var:style1")
 			}
 			for q := nMut(); q > 0; q-- {
-				emit("contention-mut", "mut", "contention", L(), mutate(c.R, data), nil, d.approx, true)
+				emit("contention-mut", "mut", "contention", L(), c14Mutate(c.R, data), nil, d.approx, true)
 			}
 		}
 		// threadz
 		{
-			d := genTDoc(c.R)
-			data := []byte(joinLines(d.lines(0)))
+			d := c14GenTDoc(c.R)
+			data := []byte(c14JoinLines(d.lines(0)))
 			nt := len(d.blocks) > 0
 			emit("thread-doc", "doc", "thread", d.term(), data, nil, false, nt)
 			if c.R.P(1, 2) {
-				emit("thread-var", "var", "thread", d.term(), []byte(joinLines(d.lines(1))), nil, false, nt, "var:style1")
+				emit("thread-var", "var", "thread", d.term(), []byte(c14JoinLines(d.lines(1))), nil, false, nt, "var:style1")
 			}
 			for q := nMut(); q > 0; q-- {
-				emit("thread-mut", "mut", "thread", L(), mutate(c.R, data), nil, false, true)
+				emit("thread-mut", "mut", "thread", L(), c14Mutate(c.R, data), nil, false, true)
 			}
 		}
 		// binary CPU
 		{
-			d := genPDoc(c.R, k%4 == 0)
+			d := c14GenPDoc(c.R, k%4 == 0)
 			data := d.bytes()
 			emit("cpu-doc", "doc", "cpu", d.term(), data, nil, false, len(d.samples) > 0, fmt.Sprintf("cpu:kind%d", d.kind))
 			for q := nMut(); q > 0; q-- {
-				m := mutate(c.R, data)
-				if asciiOnly(m) || true {
+				m := c14Mutate(c.R, data)
+				if c14AsciiOnly(m) || true {
 					emit("cpu-mut", "mut", "cpu", L(), m, nil, false, true)
 				}
 			}
